@@ -6,6 +6,7 @@ import DaskModel.Lemmas.BagShuffle
 import DaskModel.Lemmas.BagShufflePerm
 import DaskModel.Lemmas.SubMultiset
 import DaskModel.Lemmas.BagFoldby
+import DaskModel.Lemmas.BagTopk
 /-! # C48 — bag operations equal their Python reference (theorems) -/
 namespace Dask.C48
 open Dask.BagReduce Dask.BagOps Dask.BagShuffle
@@ -826,5 +827,18 @@ theorem bag_frequencies_eq (se : Nat) (hse : 2 ≤ se) (b : Bag Nat) :
     exact hc
 
 example : frequenciesB 2 [[3, 1, 3], [], [1, 2], [3]] = some [(3, 3), (1, 2), (2, 1)] := by decide
+
+/-! ## topk -/
+
+/-- **`topk`**: `Bag.topk(k)` is `sorted(seq, reverse=True)[:k]` — for every partitioning and
+    `split_every ≥ 2` (`topk_hom`: the `k` largest of a concatenation only depend on the `k` largest of the parts) -/
+theorem bag_topk_eq (k se : Nat) (hse : 2 ≤ se) (b : Bag Int) : topkB k se b = some (topk k (den b)) :=
+  bag_reduction_eq (topk k) (fun rs => topk k rs.flatten) (topk_hom k) se hse b
+
+theorem topk_sorted_perm (k : Nat) (xs : List Int) :
+    SortedDesc (sortDescInt xs) ∧ (sortDescInt xs).Perm xs ∧ topk k xs = (sortDescInt xs).take k :=
+  ⟨sortDesc_sorted xs, sortDesc_perm xs, rfl⟩
+
+example : topkB 2 2 [[3, 9], [], [7], [1, 8]] = some [9, 8] := by decide
 
 end Dask.C48
